@@ -60,7 +60,10 @@ helper instead of hand-written code, merging near-duplicates, hoisting, caching,
 simplified conditions) that read as behaviour-preserving, and an eleventh round
 of twelve (`P01-r11` … `P12-r11`) named one *particular clause* of a property that
 no earlier change had gone for (four clauses of C07, two each of C02, C05 and
-C19, one each of C12 and C03). Nothing from `/verif` was ever
+C19, one each of C12 and C03). A twelfth round of twelve (`Z01-r12` … `Z12-r12`)
+gave each agent one or two properties and a one-line list of all 154 changes
+seeded so far, asking for a mechanism, a code location *and* a triggering input
+that differ from every one of them. Nothing from `/verif` was ever
 shown. Each was **confirmed independently** before being kept
 (`tools/confirm_mutant.sh`): the patch applies to the clean tree, the library
 builds with and without the `verif` tag, the demonstration passes without the
@@ -79,7 +82,7 @@ suite is thin.
 Outcome: **every one of the {n} changes is reported as a VIOLATION by the quick
 tier of the check of the property it was written against** (seed 1). About a
 quarter of them were *missed* by the version of the monitor that existed when
-they arrived (round 1: 3, round 2: 8, round 3: 7, round 4: 2, round 5: 3, round 6: 4, round 7: 7, round 8: 4, round 9: 6, round 10: 2, round 11: 1, plus two
+they arrived (round 1: 3, round 2: 8, round 3: 7, round 4: 2, round 5: 3, round 6: 4, round 7: 7, round 8: 4, round 9: 6, round 10: 2, round 11: 1, round 12: 5, plus two
 regression found by re-running every stored change against its own check after
 the harness had changed — `tools/diag.sh`: `K07-r5` and `C20-r2` had been caught
 through coincidences of the generator; the tool also prints how many violation
@@ -99,6 +102,10 @@ argument values at their boundaries (empty, zero, nil, multi-line), foreign
 types with unusual method sets, and the ownership of what goes into and comes out
 of the API.
 
+* **C01 / C04** — one case in eight uses the string class `RegularBin`: regular
+  strings with a byte sequence that is not valid UTF-8 in the middle of a word
+  (`Z01-r12`; the fully hostile class cannot be used here: marker runes and
+  doubled newlines legitimately change texts at opaque receivers).
 * **C01** — one case in eight draws its strings from a tiny pool (equal texts
   in adjacent layers) for a chain of 2–9 annotation wrappers whose top
   annotation is applied twice in a row (`F07-r8`).
@@ -161,7 +168,12 @@ of the API.
   replaced, since such a string doubles unescaped as the type-mark extension)
   (`V09-r9`); the kind `withstackdeep`, a stack layer without frames (`V06`,
   which exposed F19).
-* **C12** — every stage is observed twice: reporting must not consume what it
+* **C05** — the registry sweep's reportable-string sets got stack-shaped and
+  malformed members (a printed stack, one with a blank line inside, without file
+  rows, with a non-numeric line, with a generic instantiation, bare newlines /
+  tab / colon) (`Z04-r12`, first caught by two byte-fuzz observations only).
+* **C12** — the kind `safedetails0`, `WithSafeDetails` with an EMPTY format and
+  arguments (`Z03-r12`); every stage is observed twice: reporting must not consume what it
   reports (`C12-r2`); one case in eight ends in a third-party leaf that declares
   a safe string through `SafeDetails()` and also has a `StackTrace()` method
   (`F11-r8`).
@@ -181,12 +193,16 @@ of the API.
   A value-typed, non-comparable third-party wrapper (`ncwrap`), and
   `UnwrapAll` / `Cause` compared with the end of the `UnwrapOnce` walk on every
   chain, not only on chains of `Cause()` wrappers (`G08-r6`). Every library layer
-  counts as a `Cause()` wrapper whatever the object at hand says (`F08-r8`).
+  counts as a `Cause()` wrapper whatever the object at hand says (`F08-r8`). The
+  kind `multiis`, a third-party multi-cause type with its own `Is` method
+  (`Z07-r12`; C08 uses it too).
 * **C15** — the error's domain (the exception module) is compared with the
   model's domain, not only with `GetDomain` of the same object (`G05-r6`); the `file:line` prefix is predicted from the per-layer stacks
   instead of from `GetOneLineSource` itself, and a third-party style leaf with
   both `StackTrace()` and `SafeDetails()` is placed at the end of the main chain
   in one case in six (`C15-r2`).
+  The third-party stack leaf records, in half of its placements, a stack of exactly
+  one frame (`Z10-r12`).
 * **C16** — 22 argument-value variants (`C16`); `GetOneLineSource` must give the
   same answer under another stack and under foreign Cause-only / Unwrap-only
   wrappers (`C16-r2`); the slice returned by `StackTrace()` is scribbled on before
@@ -207,7 +223,13 @@ of the API.
   a new operation `IsAny` with references that do not match at the top, so that
   the search walks the whole chain; the builder hands `WithTelemetry` a private
   copy of the keys — the descriptor's slice was shared by every build and by
-  the model, which hid an in-place sort (`T01-r7`, `T03-r7`).
+  the model, which hid an in-place sort (`T01-r7`, `T03-r7`). The first case each
+  child process handles is a *cold-process* case: the goroutines are released
+  before anything in that process has called into the library for reading, and the
+  reference is computed afterwards — process-wide state that is filled on first
+  use is then raced for by the very first calls (`Z11-r12`; 16 such cases per
+  quick run, 16 × more in the thorough tier through its larger case count per
+  child).
 * **C19** — a decoded stage: the accessor model must also hold on the error
   decoded at a knowing process (`C19-r2`); the slices returned by
   `GetTelemetryKeys` / `GetAllHints` / `GetAllDetails` / `GetAllIssueLinks` are
